@@ -153,6 +153,17 @@ class Machine:
             c = fn.cond(bid)
             if c:
                 raw = blk['term'].get('cond') if blk.get('term') else None
+                # the extractor names the last evaluated operand of `a && b`
+                # as the condition; when the operands are joined in this very
+                # block (do-while), that operand may not have been evaluated
+                # on this path: the value of the whole expression decides
+                if isinstance(raw, dict) and raw.get('k') == 'ext':
+                    for s in fn.stmts(bid):
+                        r = s
+                        while isinstance(r, dict) and r.get('k') == 'bin' and r.get('op') in ('&&', '||'):
+                            r = r.get('rhs')
+                        if r is not s and isinstance(r, dict) and r.get('i') == raw.get('i') and ('val', s.get('i')) in env:
+                            raw = {'k': 'ext', 'i': s['i']}
                 v = self.truth(self.eval(fn, raw if isinstance(raw, dict) else c[0], env, depth))
                 if v is None:
                     # a branch on symbolic data: if one arm is an assertion
